@@ -50,6 +50,7 @@ type c12Op struct {
 	Hdr         int     `json:"hdr,omitempty"`
 	Conn        int     `json:"conn,omitempty"`
 	Filter      []int   `json:"filter,omitempty"`      // nil = none; else the residues (event number mod 5) that pass
+	FilterStr   bool    `json:"filterStr,omitempty"`   // the filter compares the string field "stag" ("t<residue>") instead of the number "tag"
 	WriteFailAt int     `json:"writeFailAt,omitempty"` // rendering the k-th message into the writer fails
 	HB          bool    `json:"hb,omitempty"`
 	Sync        bool    `json:"sync,omitempty"`
@@ -513,16 +514,24 @@ func c12Plan(src *c12Source, i int, op c12Op) *resolve.GraphQLSubscription {
 	}
 	if op.Filter != nil {
 		var values []resolve.InputTemplate
+		field := "tag"
 		for _, r := range op.Filter {
-			values = append(values, resolve.InputTemplate{Segments: []resolve.TemplateSegment{{SegmentType: resolve.StaticSegmentType, Data: []byte(strconv.Itoa(r))}}})
+			lit := strconv.Itoa(r)
+			if op.FilterStr {
+				lit = `"t` + lit + `"`
+			}
+			values = append(values, resolve.InputTemplate{Segments: []resolve.TemplateSegment{{SegmentType: resolve.StaticSegmentType, Data: []byte(lit)}}})
 		}
-		sub.Filter = &resolve.SubscriptionFilter{In: &resolve.SubscriptionFieldFilter{FieldPath: []string{"data", "tag"}, Values: values}}
+		if op.FilterStr {
+			field = "stag"
+		}
+		sub.Filter = &resolve.SubscriptionFilter{In: &resolve.SubscriptionFieldFilter{FieldPath: []string{"data", field}, Values: values}}
 	}
 	return sub
 }
 
 func c12Event(g, n int) []byte {
-	return []byte(fmt.Sprintf(`{"data":{"counter":%d,"tag":%d}}`, g*1000+n, n%5))
+	return []byte(fmt.Sprintf(`{"data":{"counter":%d,"tag":%d,"stag":"t%d"}}`, g*1000+n, n%5, n%5))
 }
 
 func (w *c12World) modelKey(key, hdr int) int { return key*4 + hdr }
@@ -1457,6 +1466,21 @@ func c12Judge(run *Run, sc *c12Scenario, res *c12Result) {
 		}
 	}
 	collect(sc.Ops)
+	// the data events of every trigger as the scenario emitted them: event number and, for UpdateSubscription, the one target
+	type c12Emitted struct {
+		n    int
+		only any
+	}
+	emitted := map[int][]c12Emitted{}
+	for _, t := range res.Trace {
+		if len(t) == 4 && (t[0] == "event" || t[0] == "fanBegin") {
+			g, ok1 := t[1].(int)
+			n, ok2 := t[2].(int)
+			if ok1 && ok2 {
+				emitted[g] = append(emitted[g], c12Emitted{n, t[3]})
+			}
+		}
+	}
 	for _, o := range res.Observed.Subs {
 		id := o["id"].(int)
 		if o["overlap"].(bool) {
@@ -1474,8 +1498,14 @@ func c12Judge(run *Run, sc *c12Scenario, res *c12Result) {
 		// ordered, exact, filtered: event numbers of one generation strictly increase, every payload is this
 		// subscriber's own rendering, every delivered event passes its filter, nothing follows a 'complete'
 		last := map[int]int{}
+		reportSince := map[int]bool{}
 		olog, _ := o["log"].([]string)
 		for _, c := range olog {
+			if c == "errorReport" {
+				for g := range last {
+					reportSince[g] = true
+				}
+			}
 			if strings.HasPrefix(c, "data?") {
 				oracle(true, "exact_payload", fmt.Sprintf("subscriber %d: a message is not the response its own plan produces for an event: %s", id, c))
 				continue
@@ -1485,6 +1515,29 @@ func c12Judge(run *Run, sc *c12Scenario, res *c12Result) {
 				if n <= last[g] {
 					oracle(true, "ordered_once", fmt.Sprintf("subscriber %d: event %d of trigger %d delivered after event %d: %v", id, n, g, last[g], olog))
 				}
+				// one message per event that passes the filter: between two events this subscriber did receive (so it was
+				// registered and alive all the time) no passing event of its trigger may be missing, unless an error report
+				// took its place (rendering into the writer failed)
+				if p := last[g]; p > 0 && !reportSince[g] {
+					op, hasOp := subOps[id]
+					for _, e := range emitted[g] {
+						if e.n <= p || e.n >= n {
+							continue
+						}
+						if e.only != nil && fmt.Sprint(e.only) != fmt.Sprint(id) {
+							continue
+						}
+						pass := !hasOp || op.Filter == nil
+						for _, r := range op.Filter {
+							pass = pass || r == e.n%5
+						}
+						if pass {
+							oracle(true, "no_passing_event_skipped", fmt.Sprintf("subscriber %d (filter %v, string-typed %v) received events %d and %d of trigger %d but not event %d (tag %d), which passes its filter: %v",
+								id, op.Filter, op.FilterStr, p, n, g, e.n, e.n%5, olog))
+						}
+					}
+				}
+				reportSince[g] = false
 				last[g] = n
 				if op, ok := subOps[id]; ok && op.Filter != nil {
 					pass := false
@@ -1660,6 +1713,7 @@ func c12Gen1(rng *rand.Rand) *c12Scenario {
 			for k := rng.Intn(4); k > 0; k-- {
 				op.Filter = append(op.Filter, rng.Intn(5))
 			}
+			op.FilterStr = op.I%2 == 1 // no PRNG draw of its own: the scenarios of earlier runs keep their shape
 		}
 		if rng.Intn(10) == 0 {
 			op.WriteFailAt = 1 + rng.Intn(2)
